@@ -10,8 +10,9 @@
        the model answers None, "not a short literal");
      * the literal ends at the first unescaped occurrence of the opening quote;
      * a raw line feed, a raw carriage return (the tokenizer reads source with universal
-       newlines), a raw NUL (CPython 3.12 rejects source text with null bytes) or the end of
-       the input inside the literal is an error;
+       newlines), a raw NUL (CPython 3.12 rejects source text with null bytes), a raw surrogate
+       code point (source text must be encodable as UTF-8; the ESCAPE \ud800 is fine) or the
+       end of the input inside the literal is an error;
      * backslash followed by: backslash, single quote, double quote -> that character;
        n r t -> LF CR TAB;  x + 2 hex digits, u + 4, U + 8 -> that code point (either case of
        hex digits; a value above 0x10ffff is an error, as is a missing digit).
@@ -40,6 +41,12 @@ Inductive lstate :=
 
 Definition MAXCP : N := 1114112.      (* 0x110000 *)
 
+Definition is_surrogate (c : N) : bool := (55296 <=? c) && (c <=? 57343).   (* U+D800..U+DFFF *)
+
+(* raw code points that cannot occur inside a short literal *)
+Definition bad_raw (c : N) : bool :=
+  (c =? 10) || (c =? 13) || (c =? 0) || is_surrogate c || (MAXCP <=? c).
+
 Definition cons_res (c : N) (r : option (str * str)) : option (str * str) :=
   match r with Some (s, rest) => Some (c :: s, rest) | None => None end.
 
@@ -51,7 +58,7 @@ Fixpoint lex_body (q : N) (st : lstate) (s : str) : option (str * str) :=
       | LNorm =>
           if c =? q then Some ([], r)
           else if c =? BS then lex_body q LEsc r
-          else if (c =? 10) || (c =? 13) || (c =? 0) then None
+          else if bad_raw c then None
           else cons_res c (lex_body q LNorm r)
       | LEsc =>
           if (c =? BS) || (c =? SQ) || (c =? DQ) then cons_res c (lex_body q LNorm r)
@@ -126,7 +133,7 @@ Proof.
   - destruct (c =? q).
     { inversion H; subst. exists [c]. split; [reflexivity | discriminate]. }
     destruct (c =? BS); [eauto|].
-    destruct ((c =? 10) || (c =? 13) || (c =? 0)); [discriminate | eauto].
+    destruct (bad_raw c); [discriminate | eauto].
   - destruct ((c =? BS) || (c =? SQ) || (c =? DQ)); [eauto|].
     destruct (c =? 110); [eauto|]. destruct (c =? 114); [eauto|]. destruct (c =? 116); [eauto|].
     destruct (c =? 120); [eauto|]. destruct (c =? 117); [eauto|]. destruct (c =? 85); [eauto|].
